@@ -130,4 +130,7 @@ def bfs(fst, src0, depth, alphas, part, res, on_state, on_raise=None, kind='exec
         if d == 0:
             nxt = [h for i, h in enumerate(nxt) if i % M == r]
         frontier = nxt
+        if not frontier:
+            break
+    bfs.frontier_left = len(frontier)  # 0: every reachable state was expanded (the exploration reached a fixpoint within the depth)
     return seen
